@@ -73,8 +73,13 @@ def oracle(ctx, cases):
             conf = not validate(s, v).has_errors()
         except Exception:
             continue
-        if conf and validate(r, v).has_errors():
-            ctx.violation("S % v rejects v although v conforms to S", errors=repr(validate(r, v).get_errors()[:3]), **info)
+        if conf:
+            try:
+                errs = validate(r, v).get_errors()
+            except Exception as e:  # noqa: BLE001
+                errs = [e]
+            if errs:
+                ctx.violation("S % v rejects v although v conforms to S", errors=repr(errs[:3]), **info)
         for pol in ("lo", "hi", "rnd"):
             (k, g), _ = SR.generate(r, SR.make_policy(pol, ctx.rnd))
             if k == "ok" and not carries(v, g):
@@ -95,7 +100,7 @@ def oracle(ctx, cases):
 
 def run(ctx):
     runner.prove(ctx, MODULE, THEOREMS, FILES)
-    cases = substcorr.batch(ctx, ctx.n(90, 700), customs=False)
+    cases = substcorr.batch(ctx, ctx.n(90, 700), customs=False) + substcorr.open_dict_any_cases(ctx, ctx.n(150, 1500)) + substcorr.untyped_pair_cases(ctx)
     from d42 import schema
     corpus = [(schema.list([..., schema.dict({"a": schema.int, "b": schema.int}), ...]), [{"a": 1}, {"a": 1, "b": 2}]),
               (schema.list([..., schema.dict({"a": schema.int}), ...]), [{"a": 1}, {"a": 2}]),
